@@ -640,6 +640,21 @@ func c16Relabelled(c *fw.Case) {
 			if yb[0] == 0 {
 				wrong["y-leading-zero-dropped"] = [2][]byte{xb, yb[1:]}
 			}
+			// the right octets in a text that is not unpadded base64url (RFC 7518 6.2.1.2: "base64url encoding ... without padding")
+			for _, pad := range []string{"=", "=="} {
+				wj := *jwk
+				if r.Bool() {
+					wj.X += pad
+				} else {
+					wj.Y += pad
+				}
+				c.Count("padded-coordinate-text-with-genuine-signature", 1)
+				c.Evals(1)
+				if err := jwsutil.VerifySignature(&wj, sig, msg); err == nil {
+					c.Failf("bad-jwk-verifies:coordinate-text-padded", map[string]interface{}{"genuine_jwk": k.JWK(), "padded_jwk": map[string]interface{}{"kty": wj.Kty, "crv": wj.Crv, "x": wj.X, "y": wj.Y}},
+						"a genuine %s signature verifies under the key's JWK with %q appended to a coordinate text", typ, pad)
+				}
+			}
 			for _, name := range []string{"x-zero-extended", "y-zero-extended", "x-octet-appended", "x-leading-zero-dropped", "y-leading-zero-dropped"} {
 				xy, ok := wrong[name]
 				if !ok {
